@@ -1,3 +1,3 @@
 From Coq Require Import Extraction ExtrOcamlBasic NArith List.
 From C20 Require Import Model Spec.
-Extraction "Model.ml" writeImage writeImage_old fmt_of saveLog saveLog_old record_all sc_lookup reg_run reg_find reg_threads json_array read_image N.of_nat N.to_nat N.add N.mul.
+Extraction "Model.ml" img_reads comp_sel header le_bytes writeImage writeImage_old fmt_of saveLog saveLog_old record_all sc_lookup reg_run reg_find reg_threads json_array read_image N.of_nat N.to_nat N.add N.mul.
